@@ -35,6 +35,10 @@ type Origin struct {
 	Tags   []Tag
 	Sum    *Summary
 	ErrIdx int // index of the error result, -1 if none
+	// Inlined: the callee's body was analysed in the caller's context at this call (Sum is that run's summary)
+	Inlined bool
+	// MayBefore: union, over the visits of this call, of what may have happened before it (context-free summaries)
+	MayBefore map[Tag]bool
 }
 
 const (
@@ -191,7 +195,7 @@ type Exit struct {
 	St        *State
 	Results   []ast.Expr
 	Class     string
-	BoolRes   int8 // value of the function's only bool result at this exit (isTrue/isFalse, 0 unknown)
+	BoolRes   int8    // value of the function's only bool result at this exit (isTrue/isFalse, 0 unknown)
 	ErrOrigin *Origin // the call whose error is returned directly (return f() / return err with err := f())
 	OkImplies map[Tag]bool
 	FailImpl  map[Tag]bool
@@ -219,6 +223,7 @@ type CallPoint struct {
 	Before *State
 	InLoop bool
 	Defer  bool
+	Fn     *core.FuncInfo // the declared function whose body contains the call (the analysed one, or an inlined callee)
 }
 
 // Drop is an error result that is discarded.
@@ -248,6 +253,9 @@ type Summary struct {
 	BoolIdx   int
 	MustTrue  map[Tag]bool
 	MustFalse map[Tag]bool
+	// MayOk / MayFail: what may have happened on some exit that can return a nil / a non-nil error
+	MayOk   map[Tag]bool
+	MayFail map[Tag]bool
 }
 
 // AssignPoint is a classified assignment with the state before it.
@@ -256,6 +264,7 @@ type AssignPoint struct {
 	Tags   []Tag
 	Before *State
 	InLoop bool
+	Fn     *core.FuncInfo
 }
 
 // Result of analysing one function body.
@@ -303,6 +312,8 @@ type Spec struct {
 	Inline int
 
 	nextInline int
+	nextFn     *core.FuncInfo // function the next run analyses (CallPoint.Fn)
+	litOwner   *core.FuncInfo // declared function enclosing the literal the next runLit analyses
 	inlining   map[*types.Func]bool
 	ctxErr     map[string]bool
 
@@ -333,6 +344,7 @@ func (sp *Spec) runLit(pkg *packages.Package, lit *ast.FuncLit, depth int, quiet
 	if q {
 		sp.Visit = nil
 	}
+	sp.nextFn = sp.litOwner
 	r := sp.run(pkg, lit.Type, lit.Body, sp.W.LitCFG(pkg, lit), depth, nil)
 	sp.Visit = saved
 	sp.lits[k] = r
@@ -347,6 +359,7 @@ type sumKey struct {
 // Analyze runs the engine over a declared function.
 func (sp *Spec) Analyze(f *core.FuncInfo) *Result {
 	sp.armInline()
+	sp.nextFn = f
 	return sp.run(f.Pkg, f.Decl.Type, f.Decl.Body, sp.W.CFG(f), sp.Depth, nil)
 }
 
@@ -388,6 +401,7 @@ func (sp *Spec) summary(fn *types.Func, depth int) *Summary {
 		return nil
 	}
 	sp.busy[fn] = true
+	sp.nextFn = fi
 	r := sp.run(fi.Pkg, fi.Decl.Type, fi.Decl.Body, sp.W.CFG(fi), depth, nil)
 	delete(sp.busy, fn)
 	sp.cache[k] = r.Sum
@@ -410,7 +424,20 @@ func (sp *Spec) calleeSummary(callees []*types.Func, depth int) *Summary {
 		n++
 		if out == nil {
 			out = &Summary{MustAll: cp(s.MustAll), MustOk: cp(s.MustOk), MustFail: cp(s.MustFail), May: cp(s.May), HasOk: s.HasOk, HasFail: s.HasFail, BoolIdx: -1}
+			if s.MayOk != nil && s.MayFail != nil {
+				out.MayOk, out.MayFail = cp(s.MayOk), cp(s.MayFail)
+			}
 			continue
+		}
+		if out.MayOk != nil && s.MayOk != nil && s.MayFail != nil {
+			for k := range s.MayOk {
+				out.MayOk[k] = true
+			}
+			for k := range s.MayFail {
+				out.MayFail[k] = true
+			}
+		} else {
+			out.MayOk, out.MayFail = nil, nil // an unknown callee: no refinement
 		}
 		out.MustAll = inter(out.MustAll, s.MustAll)
 		if s.HasOk {
@@ -463,6 +490,7 @@ type runner struct {
 	nres       int
 	errIdx     int
 	boolIdx    int
+	fi         *core.FuncInfo
 	caseTag    map[ast.Expr]ast.Expr // case value -> switch tag (nil tag: boolean switch)
 	selectComm map[ast.Stmt]bool     // communication statements of select clauses (conditional)
 	loops      map[ast.Node]bool
@@ -476,6 +504,7 @@ type runner struct {
 func (sp *Spec) run(pkg *packages.Package, ft *ast.FuncType, body *ast.BlockStmt, g *cfg.CFG, depth int, init *State) *Result {
 	r := &runner{sp: sp, pkg: pkg, info: pkg.TypesInfo, ftype: ft, depth: depth, caseTag: map[ast.Expr]ast.Expr{}, selectComm: map[ast.Stmt]bool{}, origins: map[*ast.CallExpr]*Origin{}, res: &Result{}, errIdx: -1, boolIdx: -1}
 	r.inline = sp.nextInline
+	r.fi, sp.nextFn = sp.nextFn, nil
 	sp.nextInline = 0 // nested runs (summaries, literals) are context-free unless the caller arms it again
 	if ft.Results != nil {
 		i := 0
@@ -688,6 +717,25 @@ func (r *runner) block(b *cfg.Block, st *State) []*State {
 			n--
 		}
 	}
+	if b.Kind == cfg.KindSelectCaseBody {
+		// go/cfg evaluates every communication before the bodies; which arm was taken is known only here:
+		// the classified calls of the chosen communication are recorded as arm:<tag>
+		if cc, ok := b.Stmt.(*ast.CommClause); ok && cc.Comm != nil {
+			ast.Inspect(cc.Comm, func(m ast.Node) bool {
+				if _, isLit := m.(*ast.FuncLit); isLit {
+					return false
+				}
+				if c, ok := m.(*ast.CallExpr); ok {
+					for _, t := range r.classify(c, core.Callee(r.info, c)) {
+						if !strings.HasPrefix(t, "-") && !strings.HasPrefix(t, "#") {
+							r.addTag(st, "arm:"+t)
+						}
+					}
+				}
+				return true
+			})
+		}
+	}
 	for i := 0; i < n; i++ {
 		if r.record && r.sp.Visit != nil {
 			r.sp.Visit(r.pkg, b.Nodes[i], st)
@@ -790,6 +838,19 @@ func (r *runner) originOK(st *State, o *Origin) {
 		for t := range o.Sum.MustOk {
 			r.addTag(st, t)
 		}
+		if (o.Inlined || o.MayBefore != nil) && o.Sum.MayOk != nil {
+			// what only a failing exit of the callee may have done has not happened
+			for t := range o.Sum.May {
+				if !o.Sum.MayOk[t] && !o.MayBefore[t] {
+					delete(st.May, t)
+				}
+			}
+			for t := range o.Sum.MayFail {
+				if !o.Sum.MayOk[t] && !st.Must[t] && !o.MayBefore[t] {
+					delete(st.May, t)
+				}
+			}
+		}
 	}
 	delete(st.Unrep, o)
 }
@@ -803,6 +864,16 @@ func (r *runner) originFail(st *State, o *Origin) {
 	if o.Sum != nil {
 		for t := range o.Sum.MustFail {
 			r.addTag(st, t)
+		}
+		if (o.Inlined || o.MayBefore != nil) && o.Sum.MayFail != nil {
+			for t := range o.Sum.May {
+				if !o.Sum.MayFail[t] && !o.MayBefore[t] {
+					delete(st.May, t)
+				}
+			}
+			for t := range o.Sum.MayFail {
+				st.May[t] = true
+			}
 		}
 	}
 	if o.ErrIdx >= 0 {
@@ -1037,6 +1108,7 @@ func (r *runner) deferOrGo(b *cfg.Block, c *ast.CallExpr, st *State, prefix stri
 		r.evalExpr(b, a, st)
 	}
 	if lit, ok := ast.Unparen(c.Fun).(*ast.FuncLit); ok {
+		r.sp.litOwner = r.fi
 		sub := r.sp.runLit(r.pkg, lit, r.depth, true)
 		if prefix == "go:" {
 			r.useFreeVars(lit, st)
@@ -1074,7 +1146,7 @@ func (r *runner) deferOrGo(b *cfg.Block, c *ast.CallExpr, st *State, prefix stri
 		}
 	}
 	if r.record && len(tags) > 0 {
-		r.res.Calls = append(r.res.Calls, &CallPoint{Call: c, Callee: callee, Tags: tags, Before: st.copy(), InLoop: r.inLoop[b], Defer: true})
+		r.res.Calls = append(r.res.Calls, &CallPoint{Call: c, Callee: callee, Tags: tags, Before: st.copy(), InLoop: r.inLoop[b], Defer: true, Fn: r.fi})
 	}
 }
 
@@ -1097,6 +1169,7 @@ func (r *runner) evalExpr(b *cfg.Block, e ast.Expr, st *State) {
 		return
 	case *ast.FuncLit:
 		// calls inside a function value may happen later: may-events only
+		r.sp.litOwner = r.fi
 		sub := r.sp.runLit(r.pkg, x, r.depth, true)
 		for t := range sub.Sum.May {
 			st.May[t] = true
@@ -1193,6 +1266,7 @@ func (r *runner) call(b *cfg.Block, c *ast.CallExpr, st *State, valueUsed bool) 
 		r.evalExpr(b, f.X, st)
 	case *ast.FuncLit:
 		// immediately invoked literal: analyse inline as may/must events
+		r.sp.litOwner = r.fi
 		sub := r.sp.runLit(r.pkg, f, r.depth, true)
 		for t := range sub.Sum.MustAll {
 			r.addTag(st, t)
@@ -1223,7 +1297,7 @@ func (r *runner) call(b *cfg.Block, c *ast.CallExpr, st *State, valueUsed bool) 
 	}
 	or.Tags = r.classify(c, callee)
 	if r.record && len(or.Tags) > 0 {
-		r.res.Calls = append(r.res.Calls, &CallPoint{Call: c, Callee: callee, Tags: or.Tags, Before: st.copy(), InLoop: r.inLoop[b]})
+		r.res.Calls = append(r.res.Calls, &CallPoint{Call: c, Callee: callee, Tags: or.Tags, Before: st.copy(), InLoop: r.inLoop[b], Fn: r.fi})
 	}
 	for _, t := range or.Tags {
 		r.addTag(st, t)
@@ -1281,6 +1355,7 @@ func (r *runner) call(b *cfg.Block, c *ast.CallExpr, st *State, valueUsed bool) 
 		}
 		r.sp.inlining[callee] = true
 		r.sp.nextInline = r.inline - 1
+		r.sp.nextFn = fi
 		sub := r.sp.run(fi.Pkg, fi.Decl.Type, fi.Decl.Body, r.sp.W.CFG(fi), r.depth, seed)
 		delete(r.sp.inlining, callee)
 		if r.record {
@@ -1289,6 +1364,7 @@ func (r *runner) call(b *cfg.Block, c *ast.CallExpr, st *State, valueUsed bool) 
 		}
 		if len(sub.Exits) > 0 && sub.Sum != nil {
 			or.Sum = sub.Sum
+			or.Inlined = true
 			// what survives every exit of the callee (tags it killed on some path are gone)
 			for t := range st.Must {
 				if !sub.Sum.MustAll[t] {
@@ -1298,6 +1374,11 @@ func (r *runner) call(b *cfg.Block, c *ast.CallExpr, st *State, valueUsed bool) 
 			for t := range sub.Sum.MustAll {
 				st.Must[t] = true
 				st.May[t] = true
+			}
+			for t := range st.May {
+				if !sub.Sum.May[t] {
+					delete(st.May, t) // killed on every path through the callee
+				}
 			}
 			for t := range sub.Sum.May {
 				st.May[t] = true
@@ -1309,6 +1390,12 @@ func (r *runner) call(b *cfg.Block, c *ast.CallExpr, st *State, valueUsed bool) 
 		_, callees, _ := r.sp.W.Resolve(r.info, c)
 		if s := r.sp.calleeSummary(callees, r.depth-1); s != nil {
 			or.Sum = s
+			if or.MayBefore == nil {
+				or.MayBefore = map[Tag]bool{}
+			}
+			for t := range st.May {
+				or.MayBefore[t] = true
+			}
 			for t := range s.MustAll {
 				r.addTag(st, t)
 			}
@@ -1471,6 +1558,7 @@ func (r *runner) nonNilCall(c *ast.CallExpr, st *State) bool {
 				savedVisit := r.sp.Visit
 				r.sp.Visit = nil
 				r.sp.nextInline = 0
+				r.sp.nextFn = fi
 				sub := r.sp.run(fi.Pkg, fi.Decl.Type, fi.Decl.Body, r.sp.W.CFG(fi), 0, seed)
 				r.sp.Visit = savedVisit
 				delete(r.sp.inlining, f)
@@ -1532,7 +1620,7 @@ func (r *runner) assign(b *cfg.Block, a *ast.AssignStmt, st *State) {
 	if r.sp.AssignTags != nil {
 		if tags := r.sp.AssignTags(r.pkg, a); len(tags) > 0 {
 			if r.record {
-				r.res.Assigns = append(r.res.Assigns, &AssignPoint{Stmt: a, Tags: tags, Before: st.copy(), InLoop: r.inLoop[b]})
+				r.res.Assigns = append(r.res.Assigns, &AssignPoint{Stmt: a, Tags: tags, Before: st.copy(), InLoop: r.inLoop[b], Fn: r.fi})
 			}
 			for _, t := range tags {
 				r.addTag(st, t)
@@ -1755,9 +1843,24 @@ func (r *runner) summarise() *Summary {
 			s.AlwaysErr = false
 		}
 	}
+	s.MayOk, s.MayFail = map[Tag]bool{}, map[Tag]bool{}
 	for _, ex := range r.res.Exits {
 		for t := range ex.St.May {
 			s.May[t] = true
+			if ex.Class != ExitErr {
+				s.MayOk[t] = true
+			}
+			if ex.Class == ExitErr || ex.Class == ExitEither {
+				s.MayFail[t] = true
+			}
+		}
+		if ex.Class == ExitEither {
+			for t := range ex.OkImplies {
+				s.MayOk[t] = true
+			}
+			for t := range ex.FailImpl {
+				s.MayFail[t] = true
+			}
 		}
 		all := cp(ex.St.Must)
 		if s.MustAll == nil {
@@ -1852,6 +1955,7 @@ func (sp *Spec) AnalyzeSeed(f *core.FuncInfo, seed func(*State)) *Result {
 		seed(st)
 	}
 	sp.armInline()
+	sp.nextFn = f
 	return sp.run(f.Pkg, f.Decl.Type, f.Decl.Body, sp.W.CFG(f), sp.Depth, st)
 }
 
